@@ -99,7 +99,7 @@ PROPS.update({
         "assumptions": COMMON_ASSUMPTIONS,
     },
     "C08": {
-        "level_text": "Bounded-exhaustive exploration: all 7^M matrices of a row menu (M<=4, 5 thorough) x 3 wildcard-column kinds on a de Bruijn word containing every 5^M window, wide matrices (M up to 64/300) on consensus / anti-consensus / all single-substitution neighbours, through every 8-bit kernel (generic, SSE2, AVX2 saturating, dispatcher arms, scalar score_position); release and overflow-checking builds. Sequences are also re-configured from fewer look-ahead rows; the pre-filter is checked block-wise and inside the real Scanner (thresholds lowest/median/highest real score x block sizes 1/256 x dispatcher arms).",
+        "level_text": "Bounded-exhaustive exploration: all 7^M matrices of a row menu (M<=4, 5 thorough) x 3 wildcard-column kinds on a de Bruijn word containing every 5^M window, wide matrices (M up to 64/300) on consensus / anti-consensus / all single-substitution neighbours, through every 8-bit kernel (generic, SSE2, AVX2 saturating, dispatcher arms, scalar score_position); release and overflow-checking builds. Sequences are also re-configured from fewer look-ahead rows, over-configured, and hand-built with spare sequence rows (StripedSequence::new); the pre-filter is checked block-wise and inside the real Scanner (thresholds lowest/median/highest real score x block sizes 1/256 x dispatcher arms).",
         "level_note": "Trusted: f32 sequential reference score and the library's own scale() mapping (the property is stated relative to it). No tolerance is applied (DESIGN section 6).",
         "technique": "bounded-exhaustive enumeration of matrices x all windows x 8-bit kernels, inequality oracle",
         "level": "exploration",
@@ -125,7 +125,7 @@ PROPS.update({
 
 PROPS.update({
     "C09": {
-        "level_text": 'Bounded-exhaustive exploration: every point of the product count-matrix menu (DNA widths 1..=3, protein 1..=2; thorough +1) x 5 pseudocount specs x 5 backgrounds x 4 logarithm bases is pushed through every conversion route (to_freq, to_weight, to_scoring, into_scoring, to_weight.to_scoring[_with_base], to_weight(None).rescale.to_scoring[_with_base]) and compared cell by cell with an f64 reference written from the definitions; every wildcard-free window is held against min_score/max_score; every ordered tuple of <=3 DNA sequences of length <=2 through from_sequences; Background::new on all 9^5 arrays over a value menu, from_counts/from_sequence(s) and FrequencyMatrix::new on complete small menus. Exploration: the property has no state, the quantifier is inputs. Acceptance by Background::new is demanded only of arrays of multiples of 1/16 in [0,1] adding up to exactly one (one-symbol backgrounds included).',
+        "level_text": 'Bounded-exhaustive exploration: every point of the product count-matrix menu (DNA widths 1..=3, protein 1..=2; thorough +1) x 5 pseudocount specs x 5 backgrounds x 4 logarithm bases is pushed through every conversion route (to_freq, to_weight, to_scoring, into_scoring, to_weight.to_scoring[_with_base], to_weight(None).rescale.to_scoring[_with_base]) and compared cell by cell with an f64 reference written from the definitions; every wildcard-free window is held against min_score/max_score (its exact f64 sum within the summation allowance, the f32 score of the generic pipeline bit for bit: same summation order, monotone rounding); every ordered tuple of <=3 DNA sequences of length <=2 through from_sequences; Background::new on all 9^5 arrays over a value menu, from_counts/from_sequence(s) and FrequencyMatrix::new on complete small menus. Exploration: the property has no state, the quantifier is inputs. Acceptance by Background::new is demanded only of arrays of multiples of 1/16 in [0,1] adding up to exactly one (one-symbol backgrounds included).',
         "level_note": 'Trusted: the 40-line f64 reference (count+pseudo)/total -> f/b -> log_base with the zero-background conventions; the derived tolerances gamma_{K+2}/gamma_{K+3}/gamma_{K+5} + 4 ulp for the logarithm (largest observed error = 0.26 x tolerance). Only the rejecting side of validation is demanded; FrequencyMatrix::new rejection is demanded for deviations > 0.0105 (documented tolerance 0.01). Rows with total 0 (0/0) are skipped.',
         "technique": 'bounded-exhaustive product enumeration of count/pseudocount/background/base menus and invalid-input menus against an f64 reference model',
         "level": "exploration",
@@ -140,7 +140,7 @@ PROPS.update({
         ],
     },
     "C10": {
-        "level_text": 'Bounded-exhaustive exploration: all 2800 DNA count matrices of width 1..=4 over the C09 row menu x pseudocounts x backgrounds: rc(rc(m)) == m bit for bit and rc(m) == definition for count/frequency/weight/scoring matrices; rc commutes with to_freq/to_weight/to_scoring under 5x5 strand-symmetric pseudocounts/backgrounds; ALL DNA sequences of length <= 6 (thorough <= 7) x every menu scoring matrix with M <= 3 x {generic pipeline, dispatcher arms generic/sse2/avx2}: rc(m).score(rc(s))[L-M-i] == m.score(s)[i]. Plus matrices cut down with DenseMatrix::resize before being wrapped (rc must equal the definition, no panic) and the mirror law under 16 / 48 / 64 columns for the generic and SSE2 pipelines.',
+        "level_text": 'Bounded-exhaustive exploration: all 2800 DNA count matrices of width 1..=4 over the C09 row menu x pseudocounts x backgrounds: rc(rc(m)) == m bit for bit and rc(m) == definition for count/frequency/weight/scoring matrices; rc commutes with to_freq/to_weight/to_scoring under 5x5 strand-symmetric pseudocounts/backgrounds; ALL DNA sequences of length <= 6 (thorough <= 7) x every menu scoring matrix with M <= 3 x {generic pipeline, dispatcher arms generic/sse2/avx2}: rc(m).score(rc(s))[L-M-i] == m.score(s)[i]. Every valid position of both strands is also read through the public Index<usize> accessor of the striped scores and must be the cell of the textbook formula. Plus matrices cut down with DenseMatrix::resize before being wrapped (rc must equal the definition, no panic) and the mirror law under 16 / 48 / 64 columns for the generic and SSE2 pipelines.',
         "level_note": 'Trusted: complement table A<->T, C<->G, N<->N on ranks A,C,T,G,N; summation bound 2*gamma_{M-1}*sum|terms| (exact equality demanded for the integer-valued matrices and for -inf); commutation of to_freq allowed 2*gamma_{K+2} for the row-sum order, the element-wise steps must be bit-identical.',
         "technique": 'bounded-exhaustive enumeration of matrix menus x all short DNA sequences x backends; involution, commutation and mirrored-score oracles',
         "level": "exploration",
